@@ -485,9 +485,9 @@ func (b *Branch) Connect(ctx context.Context, store storage.Storage,
 		return nil, errors.Wrap(err, "new branch")
 	}
 
-	// Add headers after branch
-	height := parentHeight + 1
-	startOffset := height - b.PrunedLowestHeight() + 1
+	// Add headers after branch. The first header is at parentHeight + 1 and was added by NewBranch.
+	height := parentHeight + 2
+	startOffset := height - b.PrunedLowestHeight()
 	for _, header := range b.headers[startOffset:] {
 		result.add(header, height)
 		height++
